@@ -43,6 +43,9 @@ def run(tier):
     clause_d(P, rep)
     clause_e(P, rep, rows1)
     clause_g(P, rep)
+    # h. an `.org` (or segment switch) written inside a macro body keeps its effect when the expansion is spliced into the output
+    import rules_C09
+    rules_C09.splice_headers(P, rep, "C02.h")
     return rep
 
 
